@@ -245,6 +245,9 @@ func (x *expander) stmt(s ast.Stmt, next ast.Stmt, depth int) []ast.Stmt {
 			}
 		}
 	case *ast.AssignStmt:
+		if repl := x.boolAssignToIf(t, depth); repl != nil {
+			return x.block(repl, depth)
+		}
 		if len(t.Rhs) == 1 && (t.Tok == token.ASSIGN || t.Tok == token.DEFINE) {
 			if call, ok := ast.Unparen(t.Rhs[0]).(*ast.CallExpr); ok {
 				pre = x.hoistArgs(call, depth)
@@ -279,6 +282,9 @@ func (x *expander) stmt(s ast.Stmt, next ast.Stmt, depth int) []ast.Stmt {
 				return []ast.Stmt{blk}
 			}
 		} else {
+			if lowered := x.lowerCond(t, depth); lowered != nil {
+				return x.block(lowered, depth)
+			}
 			cond := ast.Unparen(t.Cond)
 			neg := false
 			if u, ok := cond.(*ast.UnaryExpr); ok && u.Op == token.NOT {
@@ -468,10 +474,9 @@ func (x *expander) targetD(call *ast.CallExpr, depth int, allowDefer bool) (call
 	if fn == nil || !x.eligibleBody(fn, call, allowDefer) {
 		return callee{}, false
 	}
+	// (generic callees are expanded too: the copy keeps the type parameters in its type information, which the
+	// rules do not look at; control flow, objects and callees are what matters)
 	sig := obj.Type().(*types.Signature)
-	if sig.TypeParams() != nil || sig.RecvTypeParams() != nil {
-		return callee{}, false
-	}
 	c := callee{fn: fn, obj: obj}
 	if sig.Recv() != nil {
 		sel, ok := fun.(*ast.SelectorExpr)
@@ -1701,4 +1706,179 @@ func (x *expander) dropDeadClosures(body *ast.BlockStmt) {
 		}
 		return true
 	})
+}
+
+// lowerCond: an if statement whose condition combines, with && || !, a call
+// that would be expanded is rewritten into one if per leaf condition with jumps
+// into the two branches (short-circuit evaluation made explicit), so that the
+// call becomes the whole condition of its own if and can be expanded:
+//
+//	if a && h(x) { T } else { E }
+//	  →  if a { goto mid }; goto else; mid: if h(x) { goto then }; goto else; if _ { then: T } else { else: E }
+func (x *expander) lowerCond(ifs *ast.IfStmt, depth int) []ast.Stmt {
+	if ifs.Init != nil {
+		return nil
+	}
+	// is there an expandable call below a connective?
+	needs := false
+	var scan func(e ast.Expr, root bool)
+	scan = func(e ast.Expr, root bool) {
+		e = ast.Unparen(e)
+		switch t := e.(type) {
+		case *ast.UnaryExpr:
+			if t.Op == token.NOT {
+				scan(t.X, root)
+				return
+			}
+		case *ast.BinaryExpr:
+			if t.Op == token.LAND || t.Op == token.LOR {
+				scan(t.X, false)
+				scan(t.Y, false)
+				return
+			}
+		case *ast.CallExpr:
+			if !root {
+				if _, ok := x.target(t, depth); ok {
+					if sig, ok := x.info.TypeOf(t.Fun).(*types.Signature); ok && sig.Results().Len() == 1 {
+						needs = true
+					}
+				}
+			}
+		}
+	}
+	scan(ifs.Cond, true)
+	if !needs {
+		return nil
+	}
+	at := ifs.Pos()
+	thenL, elseL := x.label("then"), x.label("else")
+	var lower func(e ast.Expr, lt, le string) []ast.Stmt
+	lower = func(e ast.Expr, lt, le string) []ast.Stmt {
+		e = ast.Unparen(e)
+		switch t := e.(type) {
+		case *ast.UnaryExpr:
+			if t.Op == token.NOT {
+				return lower(t.X, le, lt)
+			}
+		case *ast.BinaryExpr:
+			switch t.Op {
+			case token.LAND:
+				mid := x.label("and")
+				out := lower(t.X, mid, le)
+				out = append(out, labeled(mid, t.Y.Pos()))
+				return append(out, lower(t.Y, lt, le)...)
+			case token.LOR:
+				mid := x.label("or")
+				out := lower(t.X, lt, mid)
+				out = append(out, labeled(mid, t.Y.Pos()))
+				return append(out, lower(t.Y, lt, le)...)
+			}
+		}
+		leaf := &ast.IfStmt{If: e.Pos(), Cond: e, Body: &ast.BlockStmt{Lbrace: e.Pos(), List: []ast.Stmt{gotoStmt(lt, e.Pos())}, Rbrace: e.End()}}
+		return []ast.Stmt{leaf, gotoStmt(le, e.Pos())}
+	}
+	out := lower(ifs.Cond, thenL, elseL)
+	// the residual if keeps the two branches in place; it is entered by jumps only
+	x.seq++
+	nv := types.NewVar(at, x.top.Pkg.Types, fmt.Sprintf("inl%d_unreached", x.seq), types.Typ[types.Bool])
+	def := &ast.Ident{NamePos: at, Name: nv.Name()}
+	x.info.Defs[def] = nv
+	use := &ast.Ident{NamePos: at, Name: nv.Name()}
+	x.info.Uses[use] = nv
+	decl := &ast.DeclStmt{Decl: &ast.GenDecl{TokPos: at, Tok: token.VAR, Specs: []ast.Spec{&ast.ValueSpec{Names: []*ast.Ident{def}}}}}
+	ifs.Cond = use
+	ifs.Body.List = append([]ast.Stmt{labeled(thenL, at)}, ifs.Body.List...)
+	var tail []ast.Stmt
+	switch e := ifs.Else.(type) {
+	case nil:
+		tail = append(tail, labeled(elseL, ifs.End()))
+	case *ast.BlockStmt:
+		e.List = append([]ast.Stmt{labeled(elseL, at)}, e.List...)
+	default:
+		ifs.Else = &ast.LabeledStmt{Label: &ast.Ident{NamePos: at, Name: elseL}, Colon: at, Stmt: e}
+	}
+	res := []ast.Stmt{decl}
+	res = append(res, out...)
+	res = append(res, ifs)
+	res = append(res, tail...)
+	return []ast.Stmt{&ast.BlockStmt{Lbrace: at, List: res, Rbrace: ifs.End()}}
+}
+
+// boolAssignToIf: `v := a || h(x)` with an expandable call below a connective becomes
+// `var v bool; if a || h(x) { v = true } else { v = false }`, whose condition is then lowered and expanded.
+func (x *expander) boolAssignToIf(as *ast.AssignStmt, depth int) []ast.Stmt {
+	if len(as.Lhs) != 1 || len(as.Rhs) != 1 || (as.Tok != token.ASSIGN && as.Tok != token.DEFINE) {
+		return nil
+	}
+	id, ok := as.Lhs[0].(*ast.Ident)
+	if !ok || id.Name == "_" {
+		return nil
+	}
+	if b, ok := x.info.TypeOf(as.Rhs[0]).(*types.Basic); !ok || b.Kind() != types.Bool {
+		return nil
+	}
+	e := ast.Unparen(as.Rhs[0])
+	switch t := e.(type) {
+	case *ast.BinaryExpr:
+		if t.Op != token.LAND && t.Op != token.LOR {
+			return nil
+		}
+	case *ast.UnaryExpr:
+		if t.Op != token.NOT {
+			return nil
+		}
+	default:
+		return nil
+	}
+	probe := &ast.IfStmt{If: as.Pos(), Cond: as.Rhs[0], Body: &ast.BlockStmt{}}
+	needs := false
+	var scan func(e ast.Expr)
+	scan = func(e ast.Expr) {
+		e = ast.Unparen(e)
+		switch t := e.(type) {
+		case *ast.UnaryExpr:
+			if t.Op == token.NOT {
+				scan(t.X)
+			}
+		case *ast.BinaryExpr:
+			if t.Op == token.LAND || t.Op == token.LOR {
+				scan(t.X)
+				scan(t.Y)
+			}
+		case *ast.CallExpr:
+			if _, ok := x.target(t, depth); ok {
+				needs = true
+			}
+		}
+	}
+	scan(probe.Cond)
+	if !needs {
+		return nil
+	}
+	var obj types.Object
+	var out []ast.Stmt
+	at := as.Pos()
+	if as.Tok == token.DEFINE && x.info.Defs[id] != nil {
+		obj = x.info.Defs[id]
+		out = append(out, &ast.DeclStmt{Decl: &ast.GenDecl{TokPos: at, Tok: token.VAR, Specs: []ast.Spec{&ast.ValueSpec{Names: []*ast.Ident{id}}}}})
+	} else {
+		obj = x.info.Uses[id]
+		if obj == nil {
+			obj = x.info.Defs[id]
+		}
+	}
+	if obj == nil {
+		return nil
+	}
+	set := func(val string) ast.Stmt {
+		l := &ast.Ident{NamePos: at, Name: id.Name}
+		x.info.Uses[l] = obj
+		r := &ast.Ident{NamePos: at, Name: val}
+		x.info.Uses[r] = types.Universe.Lookup(val)
+		x.info.Types[r] = types.TypeAndValue{Type: types.Typ[types.Bool], Value: constant.MakeBool(val == "true")}
+		return &ast.AssignStmt{Lhs: []ast.Expr{l}, TokPos: at, Tok: token.ASSIGN, Rhs: []ast.Expr{r}}
+	}
+	probe.Body = &ast.BlockStmt{Lbrace: at, List: []ast.Stmt{set("true")}, Rbrace: at}
+	probe.Else = &ast.BlockStmt{Lbrace: at, List: []ast.Stmt{set("false")}, Rbrace: at}
+	return append(out, probe)
 }
